@@ -20,6 +20,9 @@ def _list_of_attrs(cls, e, fn_node) -> typing.Optional[typing.List[str]]:
             and cls is not None and e.func.attr in cls.methods and not e.args:
         h = cls.methods[e.func.attr]
         rets = [r.value for r in ast.walk(h.node) if isinstance(r, ast.Return) and r.value is not None]
+        ys = [y for y in ast.walk(h.node) if isinstance(y, (ast.Yield, ast.YieldFrom))]
+        if ys and not rets:
+            return _yielded_attrs(h.node)
         if len(rets) != 1:
             return None
         return _list_of_attrs(cls, rets[0], h.node)
@@ -38,6 +41,38 @@ def _list_of_attrs(cls, e, fn_node) -> typing.Optional[typing.List[str]]:
                 return None
         return names
     return None
+
+
+def _yielded_attrs(hnode) -> typing.Optional[typing.List[str]]:
+    """a generator that yields the configured loaders in order:
+         for l in (self._a, self._b):            or        if self._a is not None: yield self._a
+             if l is not None: yield l                     if self._b is not None: yield self._b"""
+    body = [st for st in hnode.body if not (isinstance(st, ast.Expr) and isinstance(st.value, ast.Constant))]
+    names: typing.List[str] = []
+
+    def attr(x):
+        return x.attr if isinstance(x, ast.Attribute) and isinstance(x.value, ast.Name) and x.value.id == "self" else None
+
+    if len(body) == 1 and isinstance(body[0], ast.For) and isinstance(body[0].target, ast.Name) and isinstance(body[0].iter, (ast.Tuple, ast.List)) and not body[0].orelse:
+        v = body[0].target.id
+        inner = body[0].body
+        ok = len(inner) == 1 and isinstance(inner[0], ast.If) and not inner[0].orelse and ast.unparse(inner[0].test).replace(" ", "") == f"{v}isnotNone" \
+            and len(inner[0].body) == 1 and isinstance(inner[0].body[0], ast.Expr) and isinstance(inner[0].body[0].value, ast.Yield) \
+            and isinstance(inner[0].body[0].value.value, ast.Name) and inner[0].body[0].value.value.id == v
+        if not ok:
+            return None
+        for x in body[0].iter.elts:
+            if attr(x) is None:
+                return None
+            names.append(attr(x))
+        return names
+    for st in body:
+        if isinstance(st, ast.If) and not st.orelse and len(st.body) == 1 and isinstance(st.body[0], ast.Expr) and isinstance(st.body[0].value, ast.Yield) \
+                and attr(st.body[0].value.value) is not None and ast.unparse(st.test).replace(" ", "") == f"self.{attr(st.body[0].value.value)}isnotNone":
+            names.append(attr(st.body[0].value.value))
+        else:
+            return None
+    return names or None
 
 
 def ordered_loop(f, comprehensions: bool = False):
